@@ -70,7 +70,7 @@ theorem C10_step_total_conserved :
     ∀ {α : Type u_1} (key : α → AggLabels) (val : α → Val) (p : Option Rat) (r : Int) (u : Bool)
       (w : List α),
       List.map (fun (g : AggLabels × List α) => aggregate RangeOp.count p r u (List.map val g.snd)) (groupBySet key w) =
-          List.map (fun (g : AggLabels × List α) => Val.q ↑g.snd.length) (groupBySet key w) ∧
+          List.map (fun (g : AggLabels × List α) => Val.q (↑g.snd.length : Rat)) (groupBySet key w) ∧
         (List.map (fun (g : AggLabels × List α) => g.snd.length) (groupBySet key w)).sum = w.length :=
   @step_total_conserved
 
